@@ -3,6 +3,7 @@
 -/
 import GoSecs.Model.Responder
 import GoSecs.Spec.E37Table
+import GoSecs.Gen.Facts
 
 set_option linter.unusedSimpArgs false
 
@@ -12,7 +13,7 @@ open GoSecs.E37
 /-! ### registry lookup: model vs table -/
 
 theorem txOf_eq_lookup (s : RState) (sys : Nat) :
-    txOf s sys = (match lookup s sys with | .miss => Tx.none | .ownSelect => Tx.ownSelect | .other => Tx.other) := by
+    txOf s sys = (match lookup s sys with | .miss => Tx.none | .ownSelect => Tx.ownSelect | .other => Tx.other | .data => Tx.data) := by
   unfold txOf lookup
   cases hs : s.openSel with
   | none => by_cases hm : sys ∈ s.openOther <;> simp [hm]
@@ -28,6 +29,19 @@ theorem closeTx_eq_close (s : RState) (sys : Nat) : closeTx s sys = close s sys 
   by_cases h1 : s.openSel = some sys
   · simp [h1]
   · by_cases hm : sys ∈ s.openOther <;> simp [h1, hm]
+
+theorem txOfAny_eq_lookupAny (s : RState) (sys : Nat) :
+    txOfAny s sys = (match lookupAny s sys with | .miss => Tx.none | .ownSelect => Tx.ownSelect | .other => Tx.other | .data => Tx.data) := by
+  unfold txOfAny
+  rw [txOf_eq_lookup]
+  unfold lookup lookupAny
+  by_cases h1 : s.openSel = some sys
+  · simp [h1]
+  · by_cases hm : sys ∈ s.openOther
+    · simp [h1, hm]
+    · by_cases hd : sys ∈ s.openData <;> simp [h1, hm, hd]
+
+theorem closeDataTx_eq (s : RState) (sys : Nat) : closeDataTx s sys = closeData s sys := rfl
 
 theorem isReply_eq (f : Frame) : isReply f = isSecondaryReply f := by
   unfold isReply isSecondaryReply
@@ -129,9 +143,9 @@ theorem dispatch_eq_prescribed (c : Cfg) (s : RState) (f : Frame) (h : s.st ≠ 
     by_cases hs : s.st = .selected
     · have hsel : selected s = true := (selected_eq s).mpr hs
       simp only [hs, hsel, not_true_eq_false, reduceIte, Bool.not_true, Bool.false_eq_true, wantsS9F1_eq, isReply_eq,
-        txOf_eq_lookup, closeTx_eq_close, down]
+        closeDataTx_eq]
       cases hv1 : (c.validate && !isS9F1 f && f.session != c.sessionID) <;>
-        cases hr : isSecondaryReply f <;> cases hl : lookup s f.sys <;> simp
+        cases hr : isSecondaryReply f <;> by_cases hm : f.sys ∈ s.openData <;> simp [hm]
     · have hsel : selected s = false := by
         cases hh : selected s
         · rfl
@@ -156,7 +170,7 @@ theorem dispatch_eq_prescribed (c : Cfg) (s : RState) (f : Frame) (h : s.st ≠ 
     · -- Select.rsp
       rw [hc]
       simp only [hp, hs, hb, v2, stData, stSelectRsp, stDeselectRsp, stLinktestRsp, stRejectReq, stSelectReq,
-        handleResponse, txOf_eq_lookup, closeTx_eq_close, enterSelected_eq, down]
+        handleResponse, txOf_eq_lookup, closeTx_eq_close, enterSelected_eq, down, disconnected]
       cases hl : lookup s f.sys <;>
         simp [sendRejectTransactionNotOpen, rejectRaw, reject, rejectTransactionNotOpen, rejectPTypeNotSupported,
           stRejectReq, hs, selectStatusSuccess, selectStatusAlreadyActive, stSelectRsp]
@@ -165,11 +179,11 @@ theorem dispatch_eq_prescribed (c : Cfg) (s : RState) (f : Frame) (h : s.st ≠ 
       simp only [hp, hs, hb, v3, stData, stSelectRsp, stDeselectRsp, stLinktestRsp, stRejectReq, stSelectReq,
         stLinktestReq, stDeselectReq]
       cases hst : s.st <;> simp_all [handleDeselectReq, deselectRsp, deselectStatusSuccess,
-        deselectStatusNotEstablished, stDeselectRsp]
+        deselectStatusNotEstablished, stDeselectRsp, leaveSelected]
     · -- Deselect.rsp
       rw [hc]
       simp only [hp, hs, hb, v4, stData, stSelectRsp, stDeselectRsp, stLinktestRsp, stRejectReq, stSelectReq,
-        handleResponse, txOf_eq_lookup, closeTx_eq_close, down]
+        handleResponse, txOf_eq_lookup, closeTx_eq_close, down, disconnected]
       cases hl : lookup s f.sys <;>
         simp [sendRejectTransactionNotOpen, rejectRaw, reject, rejectTransactionNotOpen, rejectPTypeNotSupported,
           stRejectReq, hs, selectStatusSuccess, selectStatusAlreadyActive, stSelectRsp]
@@ -180,21 +194,21 @@ theorem dispatch_eq_prescribed (c : Cfg) (s : RState) (f : Frame) (h : s.st ≠ 
     · -- Linktest.rsp
       rw [hc]
       simp only [hp, hs, hb, v6, stData, stSelectRsp, stDeselectRsp, stLinktestRsp, stRejectReq, stSelectReq,
-        handleResponse, txOf_eq_lookup, closeTx_eq_close, down]
+        handleResponse, txOf_eq_lookup, closeTx_eq_close, down, disconnected]
       cases hl : lookup s f.sys <;>
         simp [sendRejectTransactionNotOpen, rejectRaw, reject, rejectTransactionNotOpen, rejectPTypeNotSupported,
           stRejectReq, hs, selectStatusSuccess, selectStatusAlreadyActive, stSelectRsp]
     · -- Reject.req
       rw [hc]
       simp only [hp, hs, hb, v7, stData, stSelectRsp, stDeselectRsp, stLinktestRsp, stRejectReq, stSelectReq,
-        handleResponse, txOf_eq_lookup, closeTx_eq_close, down]
-      cases hl : lookup s f.sys <;>
+        handleResponse, txOfAny_eq_lookupAny, closeTx_eq_close, closeDataTx_eq, down, disconnected, reduceIte]
+      cases hl : lookupAny s f.sys <;>
         simp [stRejectReq, hs, selectStatusSuccess, selectStatusAlreadyActive, stSelectRsp]
     · -- Separate.req
       rw [hc]
       simp only [hp, hs, hb, v9, stData, stSelectRsp, stDeselectRsp, stLinktestRsp, stRejectReq, stSelectReq,
         stLinktestReq, stDeselectReq, stSeparateReq]
-      cases hst : s.st <;> simp_all [handleSeparateReq, down]
+      cases hst : s.st <;> simp_all [handleSeparateReq, down, disconnected]
 
 /-! ### per-frame facts, read off the table -/
 
@@ -257,7 +271,7 @@ theorem prescribed_effect (c : Cfg) (s : RState) (f : Frame) (h : (prescribed c 
   unfold prescribed
   cases hc : classOf f <;> simp only []
   all_goals (repeat' split)
-  all_goals simp_all [down]
+  all_goals simp_all [disconnected]
 
 /-! ### sequences -/
 
@@ -272,7 +286,7 @@ theorem run_eq_runTable (c : Cfg) : ∀ (fs : List Frame) (s : RState), run c s 
       rw [run_eq_runTable c fs _]
 
 /-- No transaction of our own is open (always the case for a passive endpoint without auto-linktest / W sends). -/
-def NoTx (s : RState) : Prop := s.openSel = none ∧ s.openOther = []
+def NoTx (s : RState) : Prop := s.openSel = none ∧ s.openOther = [] ∧ s.openData = []
 
 theorem txOf_noTx (s : RState) (h : NoTx s) (sys : Nat) : txOf s sys = .none := by
   unfold txOf; simp [h.1, h.2]
@@ -284,12 +298,15 @@ theorem prescribed_mark (c : Cfg) (s : RState) (f : Frame) (hn : NoTx s) (hu : s
        | .establishes => St.selected
        | .releases => St.notSelected
        | .separates => if s.st = .selected then St.notConnected else s.st
-       | .neutral => s.st) := by
+       | .neutral => s.st) ∧
+    (markOf f = .neutral → (prescribed c s f).1.t7 = s.t7) := by
   have ht := txOf_noTx s hn f.sys
+  have hta : txOfAny s f.sys = .none := by unfold txOfAny; simp [ht, hn.2.2]
+  have hd : s.openData.contains f.sys = false := by simp [hn.2.2]
   unfold prescribed markOf
-  cases hc : classOf f <;> simp only [ht]
+  cases hc : classOf f <;> simp only [ht, hta, hd, Bool.and_false, Bool.false_eq_true, reduceIte]
   all_goals (repeat' split)
-  all_goals (cases hst : s.st <;> simp_all [NoTx, selected, enterSelected, down])
+  all_goals (cases hst : s.st <;> simp_all [NoTx, selected, enterSelected, leaveSelected, disconnected])
 
 theorem run_fst_cons (c : Cfg) (s : RState) (f : Frame) (fs : List Frame) :
     (run c s (f :: fs)).1 = (run c (dispatch c s f).1 fs).1 := by
@@ -340,8 +357,8 @@ theorem run_append (c : Cfg) : ∀ (a b : List Frame) (s : RState),
   | f :: a, b, s => by
     simp only [List.cons_append, run, run_append c a b]
 
-theorem RState.ext' (a b : RState) (h1 : a.st = b.st) (h2 : a.openSel = b.openSel) (h3 : a.openOther = b.openOther) :
-    a = b := by
+theorem RState.ext' (a b : RState) (h1 : a.st = b.st) (h2 : a.openSel = b.openSel) (h3 : a.openOther = b.openOther)
+    (h4 : a.openData = b.openData) (h5 : a.t7 = b.t7) : a = b := by
   cases a; cases b; simp_all
 
 theorem neutral_keeps_state (c : Cfg) : ∀ (fs : List Frame) (s : RState), NoTx s → s.st ≠ .notConnected →
@@ -352,7 +369,7 @@ theorem neutral_keeps_state (c : Cfg) : ∀ (fs : List Frame) (s : RState), NoTx
     have hm := prescribed_mark c s f hn hu
     rw [← dispatch_eq_prescribed c s f hu, hall f (by simp)] at hm
     have he : (dispatch c s f).1 = s :=
-      RState.ext' _ _ hm.2 (by rw [hm.1.1, hn.1]) (by rw [hm.1.2, hn.2])
+      RState.ext' _ _ hm.2.1 (by rw [hm.1.1, hn.1]) (by rw [hm.1.2.1, hn.2.1]) (by rw [hm.1.2.2, hn.2.2]) (hm.2.2 rfl)
     rw [he]
     exact neutral_keeps_state c fs s hn hu (fun g hg => hall g (by simp [hg]))
 
@@ -362,10 +379,9 @@ def accepted (c : Cfg) (d : Frame) : List Out × Effect :=
 
 theorem prescribed_data_selected (c : Cfg) (s : RState) (d : Frame) (hn : NoTx s) (hs : s.st = .selected)
     (hd : classOf d = .data) : prescribed c s d = (s, accepted c d) := by
-  have ht := txOf_noTx s hn d.sys
   unfold prescribed accepted
-  simp only [hd, ht, selected, hs]
-  cases wantsS9F1 c d <;> cases isReply d <;> simp
+  simp only [hd, selected, hs]
+  cases wantsS9F1 c d <;> cases isReply d <;> simp [hn.2.2]
 
 theorem data_run_selected (c : Cfg) : ∀ (ds : List Frame) (s : RState), NoTx s → s.st = .selected →
     (∀ d ∈ ds, classOf d = .data) → run c s ds = (s, ds.map (accepted c))
@@ -416,6 +432,98 @@ theorem applyOp_wireOK (g : GState) (op : GOp) (h : WireOK g) : WireOK (applyOp 
     | cons q rest =>
       obtain ⟨id, d⟩ := q
       exact writeFrame_wireOK { g with queued := rest } d sw id h
+
+
+/-! ### timers and the active select procedure -/
+
+@[simp] theorem closeTx_st (s : RState) (x : Nat) : (closeTx s x).st = s.st := by unfold closeTx; split <;> rfl
+@[simp] theorem closeTx_t7 (s : RState) (x : Nat) : (closeTx s x).t7 = s.t7 := by unfold closeTx; split <;> rfl
+@[simp] theorem closeDataTx_st (s : RState) (x : Nat) : (closeDataTx s x).st = s.st := rfl
+@[simp] theorem closeDataTx_t7 (s : RState) (x : Nat) : (closeDataTx s x).t7 = s.t7 := rfl
+
+/-- T7 bookkeeping invariant: the dwell timer is armed only in NotSelected, and (when T7 is configured) always
+    while NotSelected. -/
+def TInv (c : Cfg) (s : RState) : Prop :=
+  (s.t7 = true → s.st = .notSelected) ∧ (c.t7 = true → s.st = .notSelected → s.t7 = true)
+
+theorem prescribed_tinv (c : Cfg) (s : RState) (f : Frame) (h : TInv c s) : TInv c (prescribed c s f).1 := by
+  obtain ⟨h1, h2⟩ := h
+  unfold prescribed
+  cases hc : classOf f <;> simp only []
+  all_goals (repeat' split)
+  all_goals (cases hst : s.st <;> cases ht : s.t7 <;> cases hct : c.t7 <;>
+    simp_all [TInv, selected, enterSelected, leaveSelected, disconnected])
+
+theorem step_tinv (c : Cfg) (s : RState) (e : Ev) (h : TInv c s) : TInv c (step c s e).1 := by
+  cases e with
+  | tcpUp a x =>
+    simp only [step]; split
+    · cases hct : c.t7 <;> simp [TInv, hct]
+    · exact h
+  | frame f =>
+    simp only [step]
+    by_cases hu : s.st = .notConnected
+    · rw [dispatch_notConnected c s f hu]; exact h
+    · rw [dispatch_eq_prescribed c s f hu]; exact prescribed_tinv c s f h
+  | t6Select => simp only [step]; split <;> simp_all [TInv, down]
+  | t7 =>
+    obtain ⟨h1, h2⟩ := h
+    simp only [step]
+    cases ht : s.t7 <;> cases hst : s.st <;> simp_all [TInv, down]
+  | t8 => simp only [step]; split <;> simp_all [TInv, down]
+
+theorem runEv_tinv (c : Cfg) : ∀ (es : List Ev) (s : RState), TInv c s → TInv c (runEv c s es).1
+  | [], _, h => h
+  | e :: es, s, h => by
+    simp only [runEv]
+    exact runEv_tinv c es _ (step_tinv c s e h)
+
+theorem idle_tinv (c : Cfg) : TInv c RState.idle := by simp [TInv, RState.idle]
+
+/-- An event that ends our own Select procedure: T6 expiry, or a control response / Reject.req carrying the
+    system bytes of our Select.req. -/
+def ClosesSelect (x : Nat) : Ev → Prop
+  | .t6Select => True
+  | .frame f => f.sys = x ∧
+      (classOf f = .selectRsp ∨ classOf f = .deselectRsp ∨ classOf f = .linktestRsp ∨ classOf f = .rejectReq)
+  | _ => False
+
+theorem select_outcomes (c : Cfg) (s : RState) (x : Nat) (e : Ev) (ho : s.openSel = some x)
+    (hu : s.st ≠ .notConnected) (hc : ClosesSelect x e) :
+    (step c s e).1.openSel = none ∧
+    ((∃ f, e = .frame f ∧ classOf f = .selectRsp ∧ f.b3 = 0 ∧ (step c s e).1.st = .selected ∧ (step c s e).2.2 = .none) ∨
+     (∃ f, e = .frame f ∧ classOf f = .selectRsp ∧ f.b3 = 1 ∧ (step c s e).1.st = s.st ∧
+        (step c s e).1.t7 = s.t7 ∧ (step c s e).2.2 = .none) ∨
+     ((step c s e).1.st = .notConnected ∧ (step c s e).2.2 = .selectFailed ∧ (step c s e).2.1 = [])) := by
+  cases e with
+  | t6Select => simp [step, ho, hu, down]
+  | tcpUp a y => exact absurd hc (by simp [ClosesSelect])
+  | t7 => exact absurd hc (by simp [ClosesSelect])
+  | t8 => exact absurd hc (by simp [ClosesSelect])
+  | frame f =>
+    obtain ⟨hx, hcl⟩ := hc
+    have htx : txOf s f.sys = .ownSelect := by simp [txOf, ho, hx]
+    have hta : txOfAny s f.sys = .ownSelect := by simp [txOfAny, htx]
+    have hct : closeTx s f.sys = { s with openSel := none } := by simp [closeTx, htx]
+    simp only [step, dispatch_eq_prescribed c s f hu]
+    unfold prescribed
+    rcases hcl with h | h | h | h
+    · simp only [h, htx, hct]
+      by_cases h0 : f.b3 = 0
+      · simp only [h0, reduceIte]
+        refine ⟨?_, Or.inl ⟨f, rfl, h, h0, ?_, trivial⟩⟩ <;> cases hst : s.st <;> simp_all [enterSelected]
+      · by_cases h1 : f.b3 = 1
+        · have h10 : ¬ ((1 : Nat) = 0) := by decide
+          simp only [h1, h10, reduceIte]
+          exact ⟨trivial, Or.inr (Or.inl ⟨f, rfl, h, h1, trivial, trivial, trivial⟩)⟩
+        · simp [h0, h1, disconnected]
+    · simp [h, htx, disconnected]
+    · simp [h, htx, disconnected]
+    · simp [h, hta, disconnected]
+
+/-- Functions of package hsmsss (hook files excluded) that call `callee`, without repetitions, in source order. -/
+def sitesOf (callee : String) : List String :=
+  ((GoSecs.Gen.hsmsss_controlSites.filter (fun s => s.2.2 == callee)).map (fun s => s.2.1)).eraseDups
 
 
 end GoSecs.Responder
